@@ -224,6 +224,9 @@ func checkC02(P *Prog, r *Result) {
 	// its operand has the test it took from one Merge overwritten by the next, and then reports a foreign code and
 	// misses its own violation (C16's rule)
 	shareRule(P, r, checkC16, "C16/no-shared-backing", nil, "C02/tests-as-declared", 4)
+	// an un-coercible value yields a coerce issue: what is un-coercible is the coercer's decision (a configured coercer
+	// may refuse NaN), so every present value goes through it (C03's rule)
+	shareRule(P, r, checkC03, "C03/coerced-value-stored", nil, "C02/coercer-decides", 1)
 	// ---- nil-iff-empty ----
 	P.checkNilIffEmpty(r)
 	// ---- a failure is never swallowed by a flag left behind, nor suppressed by an unrelated earlier issue ----
